@@ -13,7 +13,8 @@ LEVEL = "model_checking"
 DEPTH = {"quick": (4, 5), "thorough": (5, 6)}  # (full alphabet, core alphabet)
 CORE_TEXTS = ["4x + 2", "4x+2", "4x +", ") 4", "", "x = 2y^2"]
 # texts that collide under whitespace removal, and a failing text that leaves 64 groups open
-EXTRA_TEXTS = ["12x", "1 2x", "(" * 64 + "x", "(x + 1)(x - 1)"]
+# ... and an int / float spelling of the same token stream
+EXTRA_TEXTS = ["12x", "1 2x", "(" * 64 + "x", "(x + 1)(x - 1)", "2x^3", "2.0x^3.0"]
 TEXTS = CORE_TEXTS + EXTRA_TEXTS
 MUTATORS = [("clear",), ("consume",), ("reverse",), ("extend",), ("new",)]  # 'new': continue on a brand-new parser object
 OPS_CORE = [("parse", t) for t in CORE_TEXTS] + [("tokenize", t) for t in CORE_TEXTS] + MUTATORS
@@ -144,6 +145,41 @@ def _work(task):
 DEPTH_FULL = [0]
 
 
+def session_texts(n):
+    """a long deterministic session on ONE parser: n distinct texts (every 9th fails to parse, one has 70+ tokens),
+    interleaved with repeats of texts seen long before"""
+    out = []
+    for i in range(n):
+        if i % 9 == 4:
+            out.append(f"{i}x + ")
+        elif i == 100:
+            out.append(" + ".join(f"{k}x" for k in range(1, 40)))
+        else:
+            out.append(f"{i}x + {i % 7}y^{i % 5 + 2}")
+        if i % 10 == 9 and i > 80:
+            out.append(out[(i * 7) % (len(out) - 70)])  # something seen at least 70 texts ago
+    out += out[:40]
+    return out
+
+
+def check_session(n, use):
+    from mathy_core.parser import ExpressionParser
+
+    p = ExpressionParser()
+    res = []
+    for i, t in enumerate(session_texts(n)):
+        if use == "parse":
+            got = _obs_tree(p.parse, t)
+            want = _obs_tree(ExpressionParser().parse, t)
+        else:
+            got = _obs_tokens(p.tokenize, t) if i % 2 else _obs_tree(p.parse, t)
+            want = _obs_tokens(ExpressionParser().tokenize, t) if i % 2 else _obs_tree(ExpressionParser().parse, t)
+        if got != want:
+            res.append((f"long-session|{use}|call {i + 1}", f"call {i + 1} on one parser, text {t[:40]!r}: {describe(got)[:120]} vs fresh {describe(want)[:120]}"))
+            break
+    return res
+
+
 def run(tier, seed):
     DF, DC = DEPTH[tier]
     DEPTH_FULL[0] = DF
@@ -156,6 +192,12 @@ def run(tier, seed):
     for kind, t in [o for o in OPS if len(o) > 1]:
         fresh(kind, t)
     acc = merge_all(par.pmap(_work, tasks))
+    NS = 2500 if tier == "quick" else 10000
+    for use in ("parse", "mixed"):
+        acc.count("histories")
+        acc.count("steps", NS)
+        for core, detail in check_session(NS, use):
+            acc.violation(core, {"session": NS, "use": use}, detail)
     cov = {
         "states": acc.n["histories"],
         "transitions": acc.n["steps"],
@@ -166,7 +208,8 @@ def run(tier, seed):
         "histories_with_repeated_text_or_mutation": acc.n["nontrivial"],
         "explanation": f"every operation sequence of length 1..{DF} over {len(OPS)} operations and of length {DF + 1}..{DC} over the "
                        f"{len(OPS_CORE)} core operations, each replayed from a fresh parser "
-                       "(a state is identified with the history reaching it, no merging); every returned tree / token list is "
+                       f"(a state is identified with the history reaching it, no merging), plus two deterministic sessions of {NS} calls on one "
+                       "parser (distinct texts, failing texts, a 70-token text, repeats of texts seen long before); every returned tree / token list is "
                        "compared with a fresh parser's answer for the same text; every history is an execution of the implementation",
     }
     return acc, cov, ["token objects are not mutated: the property promises independent lists, not deep copies",
@@ -174,6 +217,8 @@ def run(tier, seed):
 
 
 def replay(case):
+    if "session" in case:
+        return check_session(case["session"], case["use"])
     ops = [tuple(o) for o in case["ops"]]
     b = run_history(ops)
     if b is None:
